@@ -11,6 +11,7 @@ import (
 	"flag"
 	"fmt"
 	"math"
+	"math/big"
 	"os"
 	"strings"
 
@@ -172,6 +173,34 @@ func main() {
 			dist["bytes"]++
 		}
 		parse(sb.String())
+	}
+	// --- overflow stream: long integral parts, and integral parts n for which n*10^8 wraps around
+	// 2^63 / 2^64 / 2^32 into a small value (fixed-width arithmetic must not turn them into amounts)
+	for i := 0; i < n/4; i++ {
+		var sb strings.Builder
+		sb.WriteByte(r.Pick("123456789"))
+		for j, l := 0, 10+r.Intn(16); j < l; j++ {
+			sb.WriteByte(r.Pick(digits))
+		}
+		if r.Bool() {
+			fmt.Fprintf(&sb, ".%d", r.Intn(100000000))
+		}
+		dist["longint"]++
+		parse(sb.String())
+	}
+	for _, bits := range []uint{32, 63, 64} {
+		mod := new(big.Int).Lsh(big.NewInt(1), bits)
+		for k := int64(1); k <= 60; k++ {
+			base := new(big.Int).Mul(mod, big.NewInt(k))
+			base.Div(base, big.NewInt(per))
+			for d := int64(-1); d <= 2; d++ {
+				v := new(big.Int).Add(base, big.NewInt(d))
+				for _, frac := range []string{"", ".5", ".99999999", ".00000001"} {
+					dist["wrap"]++
+					parse(v.String() + frac)
+				}
+			}
+		}
 	}
 	// --- random amounts
 	for i := 0; i < n; i++ {
